@@ -206,32 +206,32 @@ fn run_one<'a, 'p, S: Src, P: Pattern<'p>, const H: usize, const D: usize, const
         Which::Split => {
             let q = ref_split_seq::<H>(hb, dl, &occ);
             let it = string::split(h, d);
-            chk!(s, same_str(it.remainder(), h), "C06.split.initial_remainder_is_input");
-            chk!(s, same_str(it.copy().remainder(), h), "C06.split.copy_keeps_state");
+            chk!(s, piece_at(hb, it.remainder(), 0, hl), "C06.split.initial_remainder_is_input");
+            chk!(s, piece_at(hb, it.copy().remainder(), 0, hl), "C06.split.copy_keeps_remainder");
             let k = run_split::<S, P, STEPS>(s, it, hb, &q, q.n, true);
             facts(hb, dl, &occ, &q, k)
         }
         Which::RSplit => {
             let q = ref_rsplit_seq::<H>(hb, dl, &occ);
             let it = string::rsplit(h, d);
-            chk!(s, same_str(it.remainder(), h), "C06.rsplit.initial_remainder_is_input");
-            chk!(s, same_str(it.copy().remainder(), h), "C06.rsplit.copy_keeps_state");
+            chk!(s, piece_at(hb, it.remainder(), 0, hl), "C06.rsplit.initial_remainder_is_input");
+            chk!(s, piece_at(hb, it.copy().remainder(), 0, hl), "C06.rsplit.copy_keeps_remainder");
             let k = run_rsplit::<S, P, STEPS>(s, it, hb, &q, q.n, false);
             facts(hb, dl, &occ, &q, k)
         }
         Which::SplitTerminator => {
             let q = ref_split_seq::<H>(hb, dl, &occ);
             let it = string::split_terminator(h, d);
-            chk!(s, same_str(it.remainder(), h), "C06.split_terminator.initial_remainder_is_input");
-            chk!(s, same_str(it.copy().remainder(), h), "C06.split_terminator.copy_keeps_state");
+            chk!(s, piece_at(hb, it.remainder(), 0, hl), "C06.split_terminator.initial_remainder_is_input");
+            chk!(s, piece_at(hb, it.copy().remainder(), 0, hl), "C06.split_terminator.copy_keeps_remainder");
             let k = run_split_terminator::<S, P, STEPS>(s, it, hb, &q, term_count(&q), true);
             facts(hb, dl, &occ, &q, k)
         }
         Which::RSplitTerminator => {
             let q = ref_rsplit_seq::<H>(hb, dl, &occ);
             let it = string::rsplit_terminator(h, d);
-            chk!(s, same_str(it.remainder(), h), "C06.rsplit_terminator.initial_remainder_is_input");
-            chk!(s, same_str(it.copy().remainder(), h), "C06.rsplit_terminator.copy_keeps_state");
+            chk!(s, piece_at(hb, it.remainder(), 0, hl), "C06.rsplit_terminator.initial_remainder_is_input");
+            chk!(s, piece_at(hb, it.copy().remainder(), 0, hl), "C06.rsplit_terminator.copy_keeps_remainder");
             let k = run_rsplit_terminator::<S, P, STEPS>(s, it, hb, &q, term_count(&q), false);
             facts(hb, dl, &occ, &q, k)
         }
@@ -248,7 +248,7 @@ fn run_one<'a, 'p, S: Src, P: Pattern<'p>, const H: usize, const D: usize, const
                 None => chk!(s, false, "C06.split.next_back.yields_fewer_than_std_rsplit"),
             }
             let it = string::split(h, d).rev();
-            chk!(s, same_str(it.remainder(), h), "C06.split_rev.initial_remainder_is_input");
+            chk!(s, piece_at(hb, it.remainder(), 0, hl), "C06.split_rev.initial_remainder_is_input");
             let k = run_split_rev::<S, P, STEPS>(s, it, hb, &q, q.n, false);
             facts(hb, dl, &occ, &q, k)
         }
@@ -264,7 +264,7 @@ fn run_one<'a, 'p, S: Src, P: Pattern<'p>, const H: usize, const D: usize, const
                 None => chk!(s, false, "C06.rsplit.next_back.yields_fewer_than_std_split"),
             }
             let it = string::rsplit(h, d).rev();
-            chk!(s, same_str(it.remainder(), h), "C06.rsplit_rev.initial_remainder_is_input");
+            chk!(s, piece_at(hb, it.remainder(), 0, hl), "C06.rsplit_rev.initial_remainder_is_input");
             let k = run_rsplit_rev::<S, P, STEPS>(s, it, hb, &q, q.n, true);
             facts(hb, dl, &occ, &q, k)
         }
@@ -564,30 +564,23 @@ c06_spec_char! {c06_spec_rsplit_char, ref_rsplit_seq, rsplit, false, "SPEC.ref_r
 c06_spec_char! {c06_spec_split_terminator_char, ref_split_seq, split_terminator, true, "SPEC.term_count.piece_eq_std_split_terminator_char", "SPEC.term_count.count_eq_std_split_terminator_char"}
 
 harness! {
-    /// kind=bounded tier=thorough bound="spec adequacy: ref_split_seq/ref_rsplit_seq vs str::split(char)/rsplit(char) with the char pattern itself, string<=2 bytes (<=3 pieces)"
-    #[kani::unwind(12)]
+    /// kind=bounded tier=thorough bound="spec adequacy: the first two pieces of ref_split_seq vs str::split(char) with the char pattern itself (std's memchr path), string<=3 bytes"
+    #[kani::unwind(10)]
     fn c06_spec_direct_char(s) {
-        let hs = BStr::<2>::any(s);
+        let hs = BStr::<3>::any(s);
         let c = s.char();
         let h = hs.as_str();
         let hb = h.as_bytes();
         let mut tmp = [0u8; 4];
         let db = c.encode_utf8(&mut tmp).as_bytes();
-        let occ = occurrences::<2, 4>(hb, db);
-        let q = ref_split_seq::<2>(hb, db.len(), &occ);
-        let r = ref_rsplit_seq::<2>(hb, db.len(), &occ);
+        let occ = occurrences::<3, 4>(hb, db);
+        let q = ref_split_seq::<3>(hb, db.len(), &occ);
         let mut it = h.split(c);
-        let mut rit = h.rsplit(c);
-        let mut k = 0;
-        while k < 4 {
-            let e = if k < q.n { Some((q.a[k], q.b[k])) } else { None };
-            chk!(s, match (it.next(), e) { (Some(p), Some((a, b))) => is_subslice_at(hb, p.as_bytes(), a, b), (None, None) => true, _ => false },
-                 "SPEC.ref_split_seq.eq_std_split_char_direct");
-            let e = if k < r.n { Some((r.a[k], r.b[k])) } else { None };
-            chk!(s, match (rit.next(), e) { (Some(p), Some((a, b))) => is_subslice_at(hb, p.as_bytes(), a, b), (None, None) => true, _ => false },
-                 "SPEC.ref_rsplit_seq.eq_std_rsplit_char_direct");
-            k += 1;
-        }
+        chk!(s, match it.next() { Some(p) => is_subslice_at(hb, p.as_bytes(), q.a[0], q.b[0]), None => false },
+             "SPEC.ref_split_seq.first_piece_eq_std_split_char_direct");
+        let e = if q.n > 1 { Some((q.a[1], q.b[1])) } else { None };
+        chk!(s, match (it.next(), e) { (Some(p), Some((a, b))) => is_subslice_at(hb, p.as_bytes(), a, b), (None, None) => true, _ => false },
+             "SPEC.ref_split_seq.second_piece_eq_std_split_char_direct");
         cov!(s, q.n == 3, "SPEC.cover.direct_three_pieces");
         cov!(s, q.n == 2 && db.len() == 2, "SPEC.cover.direct_char2");
     }
